@@ -1,6 +1,6 @@
 (* C03 - Extensions and edges denote exactly the real adjacencies, symmetrically.  Statements only.
    Model: Algo/GraphModel.v (find_link, find_edges, get_valid_exts / fix_exts, sequence_of_path, max_path,
-   remove_censored_exts, remove_censored_exts_sharded).  The two node-end indexes are abstracted by their
+   remove_censored_exts, remove_censored_exts_sharded) and Algo/Beam.v (max_path_beam, expand_state).  The two node-end indexes are abstracted by their
    contract proved in C19 (lookup_exact / find_link_exact: a key-verified lookup of the first / last k-mers),
    so the model's find_link IS Spec.GraphIndex.find_link_spec.  Layer S: Spec/EdgeSpec.v.
    A graph is the list of its nodes (sequence, extension byte, payload); node id = position;
@@ -8,7 +8,7 @@
    A walk is a list of (node, side through which the node is entered); Left = the node is read forward. *)
 From Coq Require Import NArith ZArith List Bool Arith.
 From DBG Require Import Spec.Dna Spec.GraphIndex Packed.ExtsModel Algo.Compress Algo.GraphModel Spec.EdgeSpec
-  Check.EdgeCheck Proofs.GraphQueryProofs Proofs.WalkProofs Proofs.PruneProofs Proofs.EdgeCheckProofs Proofs.ValidGraphProofs Proofs.C03Examples.
+  Check.EdgeCheck Proofs.GraphQueryProofs Proofs.WalkProofs Proofs.PruneProofs Proofs.EdgeCheckProofs Proofs.ValidGraphProofs Proofs.C03Examples Algo.Beam Proofs.BeamProofs.
 Import ListNotations.
 Local Open Scope nat_scope.
 
@@ -177,6 +177,30 @@ Theorem C03_chk_max_path_iff : forall (D : Type) (K : nat) (stranded : bool) (g 
   (valid_walk D K stranded g p /\ kmers K sq = walk_kmers D K g p) /\ NoDup (map fst p).
 Proof. exact chk_max_path_iff. Qed.
 
+(* The second best-path query, max_path_beam (beam search from the terminal nodes; model Algo/Beam.v, [false] = the
+   repaired code, fix F10).  beam_valid: for EVERY graph (no hypothesis at all), beam width and score function,
+   whatever path it returns is a walk along reported edges in which no node is repeated - so by path_spelling its
+   sequence spells exactly the walked nodes' k-mers.  beam_total: with beam >= 1, on a graph whose extension bits
+   lead to reported edges (every valid_graph) it does not fail: the state list never becomes empty (states[0] exists)
+   and S (S (length g)) rounds suffice.  (beam = 0, or a terminal node whose only extension bits dangle, makes the real
+   code index an empty vector: modelled as failure, excluded by the guards.) *)
+Theorem C03_beam_valid : forall (D : Type) (K : nat) (stranded : bool) (score : D -> Z) (g : graph D) beam p,
+  max_path_beam D K stranded score false g beam = Some p -> valid_walk D K stranded g p /\ NoDup (map fst p).
+Proof. exact beam_valid. Qed.
+Theorem C03_beam_total : forall (D : Type) (K : nat) (stranded : bool) (score : D -> Z) (g : graph D) beam,
+  0 < beam -> valid_graph D K stranded g -> exists p, max_path_beam D K stranded score false g beam = Some p.
+Proof. intros D K st sc g beam B [_ R]. exact (beam_total D K st sc g beam B (resolvable_terminal D K st g R)). Qed.
+(* the code BEFORE fix F10 appended the node it met again: a best path with a repeated node (known finding F10,
+   repaired in /repo; the witness is replayed against the implementation by the harness corpus) *)
+Theorem C03_beam_repeats_refuted :
+  exists p, max_path_beam Z 3 true (fun d => d) true beam_ex_g 1 = Some p /\ ~ NoDup (map fst p).
+Proof. exact beam_repeats_refuted. Qed.
+Example C03_nonvacuous_beam :
+  max_path_beam Z 3 true (fun d => d) false beam_ex_g 1 = Some [(1, DLeft); (0, DLeft)] /\
+  max_path_beam Z 3 true (fun d => d) false beam_ex_g 3 = Some [(1, DLeft); (0, DLeft)] /\
+  terminal_bits_resolve Z 3 true beam_ex_g.
+Proof. exact beam_nonvacuous. Qed.
+
 (* ------------------------------------------------------------------ non-vacuity *)
 (* an unstranded K=4 graph with two palindromic single-k-mer nodes satisfies valid_graph (hence graph_ok) *)
 Example C03_nonvacuous_graph : valid_graph ex_pay 4 false ex_g /\ pal_single ex_pay 4 false ex_g 3.
@@ -224,6 +248,10 @@ Print Assumptions C03_path_spelling.
 Print Assumptions C03_max_path_valid.
 Print Assumptions C03_chk_walk_iff.
 Print Assumptions C03_chk_max_path_iff.
+Print Assumptions C03_beam_valid.
+Print Assumptions C03_beam_total.
+Print Assumptions C03_beam_repeats_refuted.
+Print Assumptions C03_nonvacuous_beam.
 Print Assumptions C03_nonvacuous_graph.
 Print Assumptions C03_nonvacuous_edges.
 Print Assumptions C03_nonvacuous_walk.
